@@ -204,6 +204,39 @@ func (e *c20Env) table(m map[string]int, boolCol int, trueVal, falseVal string) 
 	return rows
 }
 
+// the object has been received through a metrics-decorated subscriber (and acked) before
+func c20PreReceive(m *message.Message) bool {
+	sub := newC20Sub()
+	dec, err := metrics.NewPrometheusMetricsBuilder(prometheus.NewRegistry(), "pre", "").DecorateSubscriber(sub)
+	if err != nil {
+		return false
+	}
+	ch, err := dec.Subscribe(context.Background(), "pre")
+	if err != nil {
+		return false
+	}
+	go sub.emit(m, 5*time.Second)
+	select {
+	case got := <-ch:
+		if got != m {
+			return false
+		}
+	case <-time.After(6 * time.Second):
+		return false
+	}
+	return dec.Close() == nil
+}
+
+// the object has been published through a metrics-decorated publisher before
+func c20PrePublish(m *message.Message) bool {
+	inner := &c20Pub{onPub: func(int, string, []*message.Message) error { return nil }}
+	dec, err := metrics.NewPrometheusMetricsBuilder(prometheus.NewRegistry(), "pre", "").DecoratePublisher(inner)
+	if err != nil {
+		return false
+	}
+	return dec.Publish("pre", m) == nil
+}
+
 // ---------------------------------------------------------------- publisher stacks
 
 type c20Pub struct {
@@ -263,6 +296,7 @@ type c20PubCase struct {
 	Final      []c20Msg        `json:"final"`
 	Close      []interface{}   `json:"close"`
 	Concurrent bool            `json:"concurrent"`
+	PreRecv    int             `json:"pre_received"` // objects that came through a metrics-decorated subscriber before
 	Problem    string          `json:"problem,omitempty"`
 }
 
@@ -406,6 +440,13 @@ func (e *c20Env) runPubCase(rng *rand.Rand, concurrent bool) *c20PubCase {
 	for i := range objs {
 		objs[i] = e.newPObj(rng, i)
 		idx[objs[i].msg] = i
+		if rng.Intn(4) == 0 {
+			if !c20PreReceive(objs[i].msg) {
+				c.Problem = "could not pass an object through a metrics-decorated subscriber"
+				return c
+			}
+			c.PreRecv++
+		}
 	}
 	for _, o := range objs {
 		c.Heap = append(c.Heap, e.observeP(objs, idx, o.msg))
@@ -664,6 +705,7 @@ type c20SubCase struct {
 	CloseRet []interface{}   `json:"close_ret"` // per Close: [inner answer, returned]
 	Problem  string          `json:"problem,omitempty"`
 	Expected int             `json:"expected"`
+	PrePub   int             `json:"pre_published"` // objects that went through a metrics-decorated publisher before
 }
 
 func (e *c20Env) runSubCase(rng *rand.Rand) *c20SubCase {
@@ -713,6 +755,13 @@ func (e *c20Env) runSubCase(rng *rand.Rand) *c20SubCase {
 			objs[i].Metadata.Set("trail", "7") // a tag from before
 		}
 		idx[objs[i]] = i
+		if rng.Intn(4) == 0 {
+			if !c20PrePublish(objs[i]) {
+				c.Problem = "could not publish an object through a metrics-decorated publisher"
+				return c
+			}
+			c.PrePub++
+		}
 		c.Heap = append(c.Heap, []interface{}{e.rest(objs[i]), c20Trail(objs[i].Metadata)})
 	}
 	out, err := sub.Subscribe(context.Background(), "topic")
@@ -843,6 +892,7 @@ type c20MwMsg struct {
 	NOuts  int  `json:"nouts"`  // produced messages (ok only)
 	PubOK  bool `json:"pub_ok"` // the handler's publisher accepts
 	PanicV int  `json:"panicv"` // 0 string, 1 error, 2 nil
+	Pass   bool `json:"pass"`   // ok: the handler returns the consumed message itself (router only)
 }
 
 type c20MwCase struct {
@@ -858,9 +908,12 @@ type c20MwCase struct {
 	Problem string          `json:"problem,omitempty"`
 }
 
-func c20Outcome(mm c20MwMsg, id string) ([]*message.Message, error) {
+func c20Outcome(mm c20MwMsg, id string, in *message.Message) ([]*message.Message, error) {
 	switch mm.Out {
 	case 0:
+		if mm.Pass {
+			return []*message.Message{in}, nil
+		}
 		outs := []*message.Message{}
 		for k := 0; k < mm.NOuts; k++ {
 			outs = append(outs, message.NewMessage(fmt.Sprintf("%s-out%d", id, k), []byte("out")))
@@ -887,6 +940,9 @@ func c20RandMwMsgs(rng *rand.Rand, router bool) []c20MwMsg {
 		mm := c20MwMsg{Out: []int{0, 0, 1, 2}[rng.Intn(4)], PubOK: rng.Intn(3) != 0, PanicV: rng.Intn(3)}
 		if mm.Out == 0 && router {
 			mm.NOuts = []int{0, 1, 2}[rng.Intn(3)]
+			if mm.NOuts == 1 && rng.Intn(2) == 0 {
+				mm.Pass = true
+			}
 		}
 		msgs[i] = mm
 	}
@@ -913,7 +969,7 @@ func (e *c20Env) runMwDirect(rng *rand.Rand, layers int) *c20MwCase {
 	builder := metrics.NewPrometheusMetricsBuilder(reg, "w", "")
 	k := 0
 	var h message.HandlerFunc = func(msg *message.Message) ([]*message.Message, error) {
-		return c20Outcome(c.Msgs[k], msg.UUID)
+		return c20Outcome(c.Msgs[k], msg.UUID, msg)
 	}
 	for i := 0; i < layers; i++ {
 		h = builder.NewRouterMiddleware().Middleware(h)
@@ -960,7 +1016,7 @@ func (e *c20Env) runMwRouter(rng *rand.Rand, layers int) *c20MwCase {
 	hname := fmt.Sprintf("handler-%d", rng.Intn(3))
 	c.H, c.S, c.P = e.in.ID(hname), e.in.ID(c20StructName(sub)), e.in.ID(c20StructName(pub))
 	router.AddHandler(hname, "in", sub, "out", pub, func(msg *message.Message) ([]*message.Message, error) {
-		return c20Outcome(byID[msg.UUID], msg.UUID)
+		return c20Outcome(byID[msg.UUID], msg.UUID, msg)
 	})
 	ctx, cancel := context.WithCancel(context.Background())
 	defer cancel()
